@@ -54,6 +54,14 @@ func IsValid(name string) error {
 		return fmt.Errorf("address is invalid")
 	}
 
+	// the path is joined to the root to form the address string and the cache
+	// directory: a ".." segment would make both designate another database
+	for _, part := range parts[1:] {
+		if part == ".." {
+			return fmt.Errorf("address is invalid: path must not contain '..'")
+		}
+	}
+
 	return nil
 }
 
